@@ -124,6 +124,10 @@ def check_case(case):
         if offered.ok and offered.value:
             res.fail('default-range/period-offered-on-too-short-span',
                      f'{text!r} {kw}: LAGS={L} LEADS={K} on {n} period(s): iter_periods() offers positions {offered.value}')
+        if offered.ok and not offered.value and (not out.ok or [list(x) for x in out.value] != [[], [], []]):
+            # the default range exists and is empty: solve() is the loop over it, so it has nothing to do and says so
+            res.fail('default-range/empty-range-not-solved-as-empty',
+                     f'{text!r} {kw}: LAGS={L} LEADS={K} on {n} period(s): iter_periods() is empty, solve() -> {out!r}')
         if (out.ok and list(out.value[1])) or touched:
             res.fail('default-range/period-offered-on-too-short-span',
                      f'{text!r} {kw}: LAGS={L} LEADS={K} on {n} period(s): solve() -> {out!r}, status {list(m.status)}')
